@@ -76,10 +76,37 @@ Theorem C18_ext_ok_same_sound : forall p, ext_ok_same p = true -> forall t, In t
 Proof. exact ext_ok_same_sound. Qed.
 Print Assumptions C18_ext_ok_same_sound.
 
-(* the option space: a configuration is valid iff its family is not the documented float64 one (leverage scores); the
+(* 'complex stays complex' for the programs extracted from the Python source: the exact-context variant of the tolerant check.  If it
+   passes for the output positions `want`, each of these outputs has EXACTLY the data's dtype (not merely its precision class) after ANY
+   number of executions of the loop body; the two certification levels of Corr.C18.CExtX; level 2 implies level 1 *)
+Theorem C18_all_exact2_sound : forall en p want, In (tau en) ctxs -> all_exact2 en p want = true ->
+  forall k o, In k want -> nth_error (p_outs p) k = Some o -> forall n, eval en (run en p n) (snd o) = tau en.
+Proof. exact all_exact2_sound. Qed.
+Print Assumptions C18_all_exact2_sound.
+Theorem C18_ext_exact_any_sound : forall p want, ext_exact_any p want = true -> forall t m, In t ctxs -> In m mask_dts ->
+  forall k o, In k want -> nth_error (p_outs p) k = Some o -> forall n, eval (mkenv t m) (run (mkenv t m) p n) (snd o) = t.
+Proof. exact ext_exact_any_sound. Qed.
+Print Assumptions C18_ext_exact_any_sound.
+Theorem C18_ext_exact_same_sound : forall p want, ext_exact_same p want = true -> forall t, In t ctxs ->
+  forall k o, In k want -> nth_error (p_outs p) k = Some o -> forall n, eval (mkenv t t) (run (mkenv t t) p n) (snd o) = t.
+Proof. exact ext_exact_same_sound. Qed.
+Print Assumptions C18_ext_exact_same_sound.
+Theorem C18_ext_levels_ordered : forall p want, (ext_ok_any p = true -> ext_ok_same p = true) /\
+  (ext_exact_any p want = true -> ext_exact_same p want = true).
+Proof. intros p want. split; [apply ext_ok_any_implies_same | apply ext_exact_any_implies_same]. Qed.
+Print Assumptions C18_ext_levels_ordered.
+Example C18_exact2_nonvacuous :
+  let p1 := mkprog [(0, In_); (1, Op (Var 0) (Into (Var 0) bare)); (2, RealOf (Var 1))] [(1, Op (Var 1) PyF)] [("*", Var 1); ("*", Var 2)] in
+  ext_exact_any p1 [0] = true /\ ext_exact_any p1 [0; 1] = false /\ ext_ok_any p1 = true /\
+  nth_error (p_outs p1) 0 = Some ("*", Var 1) /\ In C64 ctxs /\ In I64 mask_dts.
+Proof. repeat split; try (vm_compute; reflexivity); simpl; tauto. Qed.
+
+(* the option space: a configuration is valid iff its family is neither the documented float64 one (leverage scores) nor the
+   plain mask multipliers as the code is now (cp_to_tensor / khatri_rao / cp_lstsq_grad with mask=: known finding, characterised
+   exactly by C18_mask_multiplier_is_promotion below); the
    skeleton of a family does not look at the options the family does not have (proved family by family with symbolic option
    values), so the complete enumeration inside Coq runs over the normalised configurations only *)
-Theorem C18_valid_cfg_iff : forall c, valid_cfg c <-> c_fam c <> FLeverage.
+Theorem C18_valid_cfg_iff : forall c, valid_cfg c <-> (c_fam c <> FLeverage /\ c_fam c <> FMaskMul).
 Proof. exact valid_cfg_iff. Qed.
 Print Assumptions C18_valid_cfg_iff.
 Theorem C18_skeleton_norm : forall c, skeleton c = skeleton (norm_cfg c).
@@ -120,6 +147,55 @@ Example C18_complex_factors_nonvacuous :
   real_by_design (norm_cfg (cfg0 FNNParafac)) "factors" = true /\ real_by_design (norm_cfg (cfg0 FTucker)) "errors" = true /\
   out_of (mkenv C64 B) (with_mask (cfg0 FParafac)) 5 "factors" = Some C64 /\ out_of (mkenv C128 C128) (cfg0 FSvd) 0 "out1" = Some F64.
 Proof. unfold valid_cfg. repeat split; try (vm_compute; reflexivity); vm_compute; tauto. Qed.
+
+(* ---- the plain mask multipliers cp_to_tensor(mask=) / khatri_rao(mask=) (alt = false) and cp_lstsq_grad(mask=) (alt = true), code as
+   it is: every output is EXACTLY the NumPy promotion of the data's dtype with the mask's dtype - for all four contexts, all six
+   strong mask dtypes *)
+Theorem C18_mask_multiplier_is_promotion : forall alt t m n s e, In t ctxs -> In m mask_dts ->
+  In (s, e) (p_outs (mask_mul_prog false true alt)) ->
+  eval (mkenv t m) (run (mkenv t m) (mask_mul_prog false true alt) n) e = promote t m.
+Proof. exact mask_mul_is_promotion. Qed.
+Print Assumptions C18_mask_multiplier_is_promotion.
+(* REFUTED for the current code: an int64 mask widens float32 results to float64, a float64 mask widens complex64 to complex128 *)
+Theorem C18_mask_multiplier_int_mask_refuted : exists alt n s e, In (s, e) (p_outs (mask_mul_prog false true alt)) /\
+  eval (mkenv F32 I64) (run (mkenv F32 I64) (mask_mul_prog false true alt) n) e = F64.
+Proof. exact mask_mul_int_mask_refuted. Qed.
+Print Assumptions C18_mask_multiplier_int_mask_refuted.
+Theorem C18_mask_multiplier_f64_mask_refuted : exists alt n s e, In (s, e) (p_outs (mask_mul_prog false true alt)) /\
+  eval (mkenv C64 F64) (run (mkenv C64 F64) (mask_mul_prog false true alt) n) e = C128.
+Proof. exact mask_mul_f64_mask_refuted. Qed.
+Print Assumptions C18_mask_multiplier_f64_mask_refuted.
+(* the restricted statement that holds: the context is kept exactly for every mask dtype the context absorbs - bool (the documented
+   mask type) and the data's own precision class always; in double precision every real mask; in complex128 every mask *)
+Theorem C18_mask_multiplier_partial : forall alt t m n s e, In t ctxs -> In m mask_dts -> mask_absorbed t m = true ->
+  In (s, e) (p_outs (mask_mul_prog false true alt)) ->
+  eval (mkenv t m) (run (mkenv t m) (mask_mul_prog false true alt) n) e = t.
+Proof. exact mask_mul_partial. Qed.
+Print Assumptions C18_mask_multiplier_partial.
+Theorem C18_mask_absorbed_spec : forall t m, In t ctxs -> In m mask_dts ->
+  mask_absorbed t m = (dt_eqb m B || dt_eqb m t || dt_eqb m (real_of t)
+                       || (dt_eqb t F64 && negb (dt_eqb m C64) && negb (dt_eqb m C128)) || dt_eqb t C128).
+Proof. exact mask_absorbed_spec. Qed.
+Print Assumptions C18_mask_absorbed_spec.
+Theorem C18_mask_multiplier_unmasked : forall cast alt t m n s e, In t ctxs -> In (s, e) (p_outs (mask_mul_prog cast false alt)) ->
+  eval (mkenv t m) (run (mkenv t m) (mask_mul_prog cast false alt) n) e = t.
+Proof. exact mask_mul_unmasked. Qed.
+Print Assumptions C18_mask_multiplier_unmasked.
+(* with the candidate repair (mask cast into the context of the factors; build/fix_candidates/C18_mask_multiplier.diff) the three entry
+   points are an instance of C18_outputs_exact_context: exactly t for EVERY mask dtype *)
+Theorem C18_mask_multiplier_after_cast_any_mask : forall alt t m n s e, In t ctxs ->
+  In (s, e) (p_outs (skeleton (maskmul_cast_cfg alt))) ->
+  eval (mkenv t m) (run (mkenv t m) (skeleton (maskmul_cast_cfg alt)) n) e = t.
+Proof. exact mask_mul_cast_any_mask. Qed.
+Print Assumptions C18_mask_multiplier_after_cast_any_mask.
+Example C18_mask_multiplier_nonvacuous :
+  In F32 ctxs /\ In B mask_dts /\ mask_absorbed F32 B = true /\ mask_absorbed F32 I64 = false /\ mask_absorbed F32 F64 = false /\
+  mask_absorbed C64 F32 = true /\ mask_absorbed F64 I64 = true /\
+  In ("out0", Op (Op (Op F_ W_) F_) M_) (p_outs (mask_mul_prog false true false)) /\
+  out_dtypes (mkenv F32 B) (mask_mul_prog false true true) 4 = [("factors", F32); ("weights", F32); ("out1", F32)] /\
+  out_dtypes (mkenv F32 I64) (mask_mul_prog true true true) 4 = [("factors", F32); ("weights", F32); ("out1", F32)] /\
+  out_dtypes (mkenv F32 I64) (mask_mul_prog false true true) 4 = [("factors", F64); ("weights", F64); ("out1", F64)].
+Proof. repeat split; try (vm_compute; reflexivity); simpl; tauto. Qed.
 
 (* robust_pca casts the mask into the data's context: clean for every mask dtype (in both variants) *)
 Theorem C18_robust_pca_any_mask : forall mc t m n s e, In t ctxs -> In (s, e) (p_outs (skeleton_v mc (with_mask (cfg0 FRobustPca)))) ->
